@@ -673,7 +673,7 @@ def g_drep():
 
 
 def g_misc():
-    for ish in [[4, 4], [3, 4], [4, 3], [5, 5], [2, 6], [1, 4], [4, 1]]:
+    for ish in [[4, 4], [3, 4], [4, 3], [5, 5], [2, 6], [1, 4], [4, 1], [2, 5], [6, 3], [5, 2]]:
         yield {"cls": "AbelTransform", "ishape": ish}
     for cls in ["AngularSpectrumPropagator", "FresnelPropagator"]:
         for ish, dx in [([4], 1.0), ([5], 0.5), ([3, 3], 1.0), ([4, 4], [1.0, 0.5]), ([2, 2], 2.0), ([1], 1.0)]:
